@@ -260,6 +260,16 @@ theorem sendsOf_every_all (k : BKind) (c : Cfg) (out : Val) (vs : List Val) (i :
     rw [run_cons, sendsOf_cons, rec_sends_every k c out v i hi, List.map_append, ih, List.filter_cons]
     cases h : v.isUndef <;> simp [send_pv]
 
+theorem sendsOf_output_results (k : BKind) (c : Cfg) (out : Val) (vs : List Val) (i : Nat)
+    (hi : i < c.onOutput.length) (hf : c.onOutput[i].filters = []) :
+    (sendsOf .output i (run k c out vs)).map (·.result) =
+      (changes out vs).map fun pv => some (rawData c.name pv.1 pv.2) := by
+  induction vs generalizing out with
+  | nil => rfl
+  | cons v vs ih =>
+    rw [run_cons, sendsOf_cons, rec_sends_output k c out v i hi, List.map_append, ih, after_eq, changes]
+    split <;> simp [Ev.send, kwargs_set_source, hf, runFilters]
+
 /-! ### every record of a history is one assignment -/
 
 theorem mem_run (k : BKind) (c : Cfg) (out : Val) (vs : List Val) (r : Rec) (h : r ∈ run k c out vs) :
